@@ -908,6 +908,10 @@ func (te *TemplateEngine) cloneDocument(source *Document) *Document {
 	// 复制图片ID计数器
 	doc.nextImageID = source.nextImageID
 
+	// 复制脚注/尾注与编号管理器，克隆文档继续沿用原文档已分配的编号
+	doc.footnoteManager = source.footnoteManager.clone()
+	doc.numberingManager = source.numberingManager.clone()
+
 	return doc
 }
 
